@@ -345,6 +345,11 @@ class Interp:
         v = self.unwrap(v, node)
         if isinstance(v, VSeq):
             return v
+        if isinstance(v, VOpaque) and v.label in ('missing', 'undefined') and self.pure:
+            # spec text about an event / value that does not exist on this path (the clause is guarded): an unconstrained sequence
+            self.ctx.qcount += 1
+            th = {'seq': T.SeqS, 'obj': T.SeqO}.get(want, T.SeqI)
+            return VSeq(z3.Const('undefined-seq!%d' % self.ctx.qcount, th.sort), 'list', th)
         if isinstance(v, VRef):
             c = self.st.heap.get(v.loc)
             if isinstance(c, HList):
@@ -866,6 +871,12 @@ class Interp:
     def binop(self, op, a, b, node):
         a = self.unwrap(a, node)
         b = self.unwrap(b, node)
+        if self.pure:
+            undef = lambda x: isinstance(x, VOpaque) and x.label in ('missing', 'undefined')
+            if undef(a) and isinstance(b, VSeq):
+                a = self.seq_of(a, node).with_term(self.seq_of(a, node).t) if False else VSeq(self.seq_of(a, node).t, b.kind, b.th) if b.th is T.SeqI else a
+            if undef(b) and isinstance(a, VSeq):
+                b = VSeq(self.seq_of(b, node).t, a.kind, a.th) if a.th is T.SeqI else b
         isnum = lambda x: isinstance(x, (VInt, VBool))
         if isinstance(op, (ast.Add, ast.Sub)) and ((isinstance(a, VOpaque) and isnum(b)) or (isinstance(b, VOpaque) and isnum(a))):
             # a counter kept in a container of objects: its integer value (an int was stored: box_int / obj_int are inverse)
